@@ -221,6 +221,7 @@ class Exec:
         self.ext_prefix = [('_ZN4vfps7Display9printText', ext_noop)]      # logging is not the subject
         self.max_paths = 1500
         self.track_uninit = False    # optional: flag scalar loads from never-written stack bytes (allocas; re-poisoned by llvm.lifetime.start)
+        self.check_gep = True        # inbounds address computations must stay inside the object they start in (only where the base lies in a known heap allocation)
         self.fork_guide = None       # optional: fork_guide(st, cond, true_block, false_block) -> None | True | False, asked before fork_filter
         self.round_toint = False     # symbolic round/ceil/floor/fp-to-int as fresh mathematical integers (no enumeration of integer parts)
         self.intsym = {}             # id of ToReal(k) term -> (term, k)
@@ -263,6 +264,19 @@ class Exec:
         if addr < 4096: raise MemError('%s of %d bytes at null+0x%x' % (what, n, addr))
         if 0x5000_0000_0000 <= addr < EXEC_HEAP: return
         if not self.snap.mapped(addr, n): raise MemError('%s of %d bytes at unmapped address 0x%x' % (what, n, addr))
+    def check_inbounds(self, st, base, res):
+        """getelementptr inbounds: base and result must lie in (or one past the end of) the same allocated object - the provenance the allocation table alone does not have"""
+        al = None
+        if base >= EXEC_HEAP:
+            for a, sz in self._near_allocs(st, base):
+                if a <= base <= a + sz: al = (a, sz)
+        else:
+            a0, an = self.snap.arena
+            if a0 <= base <= a0 + an:
+                i = bisect.bisect_right(self._alloc_starts, base) - 1
+                if i >= 0 and self.snap.allocs[i][0] <= base <= self.snap.allocs[i][0] + self.snap.allocs[i][1]: al = self.snap.allocs[i]
+        if al is not None and not (al[0] <= res <= al[0] + al[1]):
+            raise MemError('inbounds address computation leaves its object: base 0x%x in allocation [0x%x, +%d), result 0x%x' % (base, al[0], al[1], res))
     def _near_allocs(self, st, addr):
         ks = getattr(st, '_aks', None)
         if ks is None or getattr(st, '_aver', -1) != st.aver: ks = st._aks = sorted(st.allocs); st._aver = st.aver
@@ -718,7 +732,9 @@ class Exec:
             elif op == 'store':
                 self.store(st, self.val(st, fr, None, ins['ptr']), ins['ty'], self.val(st, fr, ins['ty'], ins['val']))
             elif op == 'getelementptr':
-                fr.loc[ins['dst']] = self.gep(st, fr, ins['bty'], self.val(st, fr, None, ins['base']), ins['idx'])
+                b_ = self.val(st, fr, None, ins['base']); r_ = self.gep(st, fr, ins['bty'], b_, ins['idx'])
+                if self.check_mem and self.check_gep and ins.get('inbounds') and isinstance(b_, int) and isinstance(r_, int) and r_ != b_: self.check_inbounds(st, b_, r_)
+                fr.loc[ins['dst']] = r_
             elif op == 'alloca':
                 n = self.val(st, fr, IntTy(64), ins['n'])
                 if not isinstance(n, int): raise Unsupported('symbolic alloca size')
